@@ -204,7 +204,7 @@ def gen_sec(ctx, rng, idx, quick):
     for (xr, xi) in pts:
         evals.append(("F", xr, xi)); evals.append(("D", xr, xi, 0)); evals.append(("M", rng.choice(precs), xr, xi))
     # multiprecision only: much closer to a pole
-    for k in (60, 200):
+    for k in ((60, 120) if n <= 20 else (60,)):
         evals.append(("M", 512, b[0] + Fr(1, 2 ** k), b[1]))
     # exactly at a pole
     evals.append(("F", b[0], b[1])); evals.append(("D", b[0], b[1], 0)); evals.append(("M", 128, b[0], b[1]))
